@@ -189,6 +189,11 @@ class Interp:
                 val = None
                 if l.val is not None and r.val is not None and r.val[1] == 0 and r.val[0] != 0:
                     val = amulc(l.val, 1 / r.val[0])
+                    qt = n.get("type", {}).get("qualType", "")
+                    if qt in ("int", "long", "unsigned int", "unsigned long", "size_t", "long long", "short") and l.val[1] == 0:
+                        # both operands are integers: C++ truncates (2/3 is 0, not two thirds)
+                        q_ = abs(l.val[0]) // abs(r.val[0])
+                        val = A(q_ if (l.val[0] >= 0) == (r.val[0] >= 0) else -q_)
                 return Val(vadd(l.dim, r.dim, -1), val, zero=l.zero)
             if op == "%":
                 return Val(Z3)
